@@ -17,20 +17,22 @@
 (* every call of the table on an empty disk) for the function-level binding.    *)
 EXTENDS FitsTiler, Json
 
-\* (Scripts - a set of sequences of indices into CmdTable - comes with the data: FitsTilerData)
+\* (Scripts - a set of sequences of indices into CmdTable - and WalkSet - the calls TLC's random walks choose from -
+\* come with the data: FitsTilerData)
 
-VARIABLE hist           \* the calls issued so far (indices into CmdTable)
-hvars == <<vars, hist>>
+VARIABLES hist,         \* the calls issued so far (indices into CmdTable)
+          before        \* the directories before the last call
+hvars == <<vars, hist, before>>
 
-HInit == Init /\ hist = <<>>
-Step(k) == Call(k) /\ hist' = Append(hist, k)
+HInit == Init /\ hist = <<>> /\ before = dirs
+Step(k) == Call(k) /\ hist' = Append(hist, k) /\ before' = dirs
 ScriptNext == \E s \in Scripts : /\ Len(hist) < Len(s)
                                  /\ SubSeq(s, 1, Len(hist)) = hist
                                  /\ Step(s[Len(hist) + 1])
 ScriptSpec == HInit /\ [][ScriptNext]_hvars
-FreeNext == \E k \in Cmds : Step(k)
+FreeNext == \E k \in WalkSet : Step(k)
 FreeSpec == HInit /\ [][FreeNext]_hvars
-AllNext == (\E k \in Cmds : Do(k)) /\ UNCHANGED hist
+AllNext == (\E k \in Cmds : Do(k)) /\ UNCHANGED hist /\ before' = dirs
 AllSpec == HInit /\ [][AllNext]_hvars
 LastSpec == AllSpec
 ViewAll == <<dirs, ncalls>>
@@ -38,20 +40,23 @@ ViewAll == <<dirs, ncalls>>
 CONSTANT StepBound
 StepTheoremsBounded == (ncalls < MaxCalls /\ ncalls < StepBound) => StepTheorems
 
+\* ---- one more statement the code does NOT keep (negative control): a call that raises leaves every directory as it was
+FailedCallChangesNothing == ~ret.ok => dirs = before
+
 \* ---- emitter (always-true invariant)
 DirRec(d) == [dir |-> d, wtml |-> dirs[d].wtml, lay |-> dirs[d].lay, rng |-> dirs[d].rng, tiles |-> dirs[d].tiles,
               wt |-> dirs[d].wt, by |-> dirs[d].by, wk |-> dirs[d].wk]
 Record == [hist |-> hist, ret |-> ret, dirs |-> {DirRec(d) : d \in {e \in DirIds : dirs[e].ex}},
            ideal |-> [ReturnedDescribesDisk |-> ReturnedDescribesDisk, ServedIsRequested |-> ServedIsRequested,
                       ServedProjectionIsChosen |-> ServedProjectionIsChosen, NoPartialDirectory |-> NoPartialDirectory,
-                      TileReturnsSelf |-> TileReturnsSelf]]
+                      TileReturnsSelf |-> TileReturnsSelf, FailedCallChangesNothing |-> FailedCallChangesNothing]]
 Emit == PrintT(<<"S", ToJson(Record)>>)
 
 \* ---- the state-independent table
 Row(k) == LET c == CmdTable[k]
               p == Plan[k] IN
           [k |-> k, early |-> p.early, method |-> p.method, dir |-> p.dir, route |-> p.route,
-           badsel |-> p.badsel, large_as_built |-> p.large, large_true |-> p.largetrue,
+           badsel |-> p.badsel, large_as_built |-> p.large, large_true |-> p.largetrue, large_corners |-> p.largecorners,
            ideal_dir |-> IF p.early \/ c.out # <<>> THEN <<>> ELSE DerivedIdeal(PathOf[c.files[1]], p.method),
            regular |-> RegularPath(PathOf[c.files[1]]),
            levels |-> p.desc.levels, proj |-> p.desc.proj]
